@@ -176,7 +176,7 @@ def run(tier: str) -> int:
             base = idgen.real_ids(nodes)
             base.pop("payload")
             (d / f"cfg{k}.yaml").write_text(yaml.safe_dump({"pipeline": {"nodes": nodes}}, sort_keys=False))
-            for seed, cwd in (("0", "/repo"), ("1", str(d)), ("random", "/")):
+            for seed, cwd in (("0", str(core.REPO)), ("1", str(d)), ("random", "/")):
                 env = dict(os.environ, PYTHONHASHSEED=seed)
                 p = subprocess.run([sys.executable, str(d / "child.py"), str(d / f"cfg{k}.yaml")], capture_output=True, text=True,
                                    env=env, cwd=cwd, timeout=120)
